@@ -24,7 +24,7 @@ EXTENDS Events, Json, IOUtils
 Trace == ndJsonDeserialize(IOEnv.TRACE_FILE)
 DevName == IF "TRACE_DEV" \in DOMAIN IOEnv THEN IOEnv.TRACE_DEV ELSE ""
 Has(d) == \E i \in 1..(Len(DevName) - Len(d) + 1) : SubSeq(DevName, i, i + Len(d) - 1) = d
-TraceDev == {d \in {"NoopEvent", "ConcurrentSend", "TimeNanosAsSeconds"} : Has(d)}
+TraceDev == {d \in {"NoopEvent", "ConcurrentSend", "TimeNanosAsSeconds", "DeleteUnguarded"} : Has(d)}
 
 VARIABLES l, poss, dead, hist
 tvars == <<l, poss, dead, hist>>
